@@ -352,6 +352,16 @@ def run_property(prop, units, level, tier, seed, assumptions=(), nproc=None, onl
     rdir = os.path.join(env.OUT, "replays", prop)
     status = 0
     if new_viol:
+        byk = collections.Counter((v["unit"], v["fkey"]) for v in new_viol)
+        print("violation classes (unit, fkey, recorded instances):")
+        for (un, fk), n in sorted(byk.items(), key=lambda t: (-t[1], t[0])):
+            print("   %6d  %s  %s" % (n, un, fk))
+        # write replays round-robin over the classes so every class gets one
+        order, seen_k = [], collections.Counter()
+        for v in new_viol:
+            seen_k[(v["unit"], v["fkey"])] += 1
+            order.append((seen_k[(v["unit"], v["fkey"])], len(order), v))
+        new_viol = [v for _a, _b, v in sorted(order, key=lambda t: (t[0], t[1]))]
         os.makedirs(rdir, exist_ok=True)
         seen = set()
         for v in new_viol:
